@@ -157,6 +157,7 @@ fn sweep(run: &mut Run, name: &str, ncalls: u64, call_at: &(dyn Fn(u64) -> EncCa
     let na = match addrs {
         Addrs::All7 => 128 * 128,
         Addrs::All8 => 65536,
+        Addrs::All7Stride => 1,
         Addrs::List(v) => v.len() as u64,
     };
     run.sweep_chunked(name, ncalls * na, |acc, lo, hi| {
@@ -166,6 +167,7 @@ fn sweep(run: &mut Run, name: &str, ncalls: u64, call_at: &(dyn Fn(u64) -> EncCa
             let (src, dst) = match addrs {
                 Addrs::All7 => ((a / 128) as u8, (a % 128) as u8),
                 Addrs::All8 => ((a / 256) as u8, a as u8),
+                Addrs::All7Stride => (0x23, 0x34),
                 Addrs::List(v) => v[a as usize],
             };
             let call = call_at(ix.0);
